@@ -87,8 +87,10 @@ fn run(job: &Job) -> Out {
         // ---- model correspondence: every offset, both searches
         let dbg = a.verif_ast_debug(fid).unwrap_or_default();
         let mut tree = String::new();
+        let mut var_ids = std::collections::HashSet::new();
         match parse_debug(&dbg) {
             Some(dv) => {
+                variable_ids(&dv, &mut var_ids);
                 let n = render_tree(&dv, &mut tree);
                 bump(&mut out, "ast-nodes", n as u64);
             }
@@ -129,6 +131,24 @@ fn run(job: &Job) -> Out {
             if let Some((id, lo, hi)) = x {
                 if !(*lo <= o && o < *hi) && out.spec.len() < 3 {
                     out.spec.push(format!("hover search at {o} of {}.abra returns node {id} with range {lo}..{hi} that does not contain the offset; program\n{}", f.name, show_prog(prog)));
+                }
+            }
+        }
+        // agreement: wherever hover lands on an identifier expression, the go-to-definition search lands on the same node
+        let mut disagree = 0;
+        for o in 0..=maxoff {
+            if let Some((hid, lo, hi)) = inners[o] {
+                if var_ids.contains(&(hid as usize)) {
+                    bump(&mut out, "agree:hover-on-identifier", 1);
+                    if idents[o].map(|x| x.0) != Some(hid) {
+                        disagree += 1;
+                        if disagree <= 2 {
+                            out.spec.push(format!(
+                                "at byte offset {o} of {}.abra hover lands on the identifier `{}` ({lo}..{hi}) but the go-to-definition search returns {:?}; program\n{}",
+                                f.name, f.src.get(lo..hi).unwrap_or("?"), idents[o], show_prog(prog)
+                            ));
+                        }
+                    }
                 }
             }
         }
